@@ -43,6 +43,8 @@ type InflCase struct {
 	Volume     int    `json:"volume,omitempty"`
 	VolumeTag  string `json:"volume_tag,omitempty"`
 	Goroutines int    `json:"goroutines,omitempty"`
+	RaiseProcs int    `json:"raise_procs,omitempty"`
+	GiantKiB   int    `json:"giant_kib,omitempty"`
 	// Race: run with real goroutines under the race detector instead of the
 	// cooperative scheduler (not deterministic; Reps repetitions).
 	Race bool `json:"race,omitempty"`
@@ -401,7 +403,7 @@ func executeInflRace(env *Env, sc *Scenario) ([]Violation, error) {
 func executeInflVolume(env *Env, sc *Scenario) ([]Violation, error) {
 	ic := sc.Infl
 	// irregular words of each rule type: the prefix clause of the property applies to exactly these
-	req := &inflproto.Req{Mode: "volume", N: ic.Volume, Tag: ic.VolumeTag, Goroutines: ic.Goroutines, ClockStepUS: 1500,
+	req := &inflproto.Req{Mode: "volume", N: ic.Volume, Tag: ic.VolumeTag, Goroutines: ic.Goroutines, ClockStepUS: 1500, RaiseProcs: ic.RaiseProcs, GiantKiB: ic.GiantKiB,
 		PWords: []string{"person", "child", "ox", "cow", "man", "move", "foot", "goose"},
 		SWords: []string{"people", "children", "oxen", "cows", "men", "moves", "feet", "geese"}}
 	var resp inflproto.Resp
@@ -495,7 +497,7 @@ func SimC20(c *CheckCtx, i int, r *Rng) error {
 	switch {
 	case i == 3:
 		n := map[bool]int{false: 150000, true: 700000}[thorough]
-		if _, err := c.RunScenario(&Scenario{Kind: "infl", Infl: &InflCase{Volume: n, VolumeTag: fmt.Sprintf("v%d", c.Seed%10)}}, i); err != nil {
+		if _, err := c.RunScenario(&Scenario{Kind: "infl", Infl: &InflCase{Volume: n, VolumeTag: fmt.Sprintf("v%d", c.Seed%10), RaiseProcs: 4, GiantKiB: map[bool]int{false: 400, true: 1500}[thorough]}}, i); err != nil {
 			return err
 		}
 	case i == 5:
